@@ -125,6 +125,26 @@ func checkC11(p *Program, r *Report) {
 		}
 		nm := callName(c.Common())
 		if nm != "Get" && nm != "Get1" {
+			// the series may be bundled in a struct and read through a method: `inflow, lateral := series.read(i)`
+			if ops, ok := bundledOps(c); ok {
+				for _, op := range ops {
+					if op.write || origin1(op.index) != ssa.Value(ind) {
+						continue
+					}
+					for i := 0; i < nIn && i < len(k.Params); i++ {
+						if origin1(op.series) == ssa.Value(k.Params[i]) {
+							for _, ref := range refs(cv) {
+								if ex, ok := ref.(*ssa.Extract); ok && ex.Index == op.result {
+									cc.names[ex] = fmt.Sprintf("in%d", i)
+								}
+							}
+							if cv.Common().Signature().Results().Len() == 1 {
+								cc.names[cv] = fmt.Sprintf("in%d", i)
+							}
+						}
+					}
+				}
+			}
 			continue
 		}
 		for i := 0; i < nIn && i < len(k.Params); i++ {
@@ -171,6 +191,13 @@ func checkC11(p *Program, r *Report) {
 		if (nm == "Set" || nm == "Set1") && origin1(recvOf(c.Common())) == ssa.Value(outPrm) && atIdx(c) {
 			outPoly = cc.expand(callArgs(c.Common())[1], 0)
 			outPos = c
+		} else if ops, ok := bundledOps(c); ok {
+			for _, op := range ops {
+				if op.write && origin1(op.series) == ssa.Value(outPrm) && origin1(op.index) == ssa.Value(ind) {
+					outPoly = cc.expand(op.value, 0)
+					outPos = c
+				}
+			}
 		}
 	}
 	if outPoly == nil {
